@@ -71,11 +71,21 @@ func VerifAPIIsolation() {
 	d2.Pegnet = p
 	d2.Sync = &pegnet.BlockSync{Synced: 10}
 	s2 := &APIServer{Node: d2}
+	// the sync side asks for the same height as the handler, or (block boundary) another one
+	syncHeight := uint32(9 + vrt.Choose("syncHeight", 3))
 	vrt.Shared(d2, "Pegnetd")
 	vrt.Parallel(
-		func() { _ = s2.getGlobalRichList(ctx, nil) },     // API goroutine
-		func() { _ = d2.GetPegNetRateAverages(ctx, 10) }, // sync goroutine: the holding pass of block 11
+		func() { _ = s2.getGlobalRichList(ctx, nil) },             // API goroutine
+		func() { _ = d2.GetPegNetRateAverages(ctx, syncHeight) }, // sync goroutine: the holding pass of a block
 	)
+	// what one caller was handed must not be rewritten by a later call for another height
+	d3 := new(node.Pegnetd)
+	d3.Pegnet = p
+	d3.Sync = &pegnet.BlockSync{Synced: 10}
+	first := d3.GetPegNetRateAverages(ctx, 10).(map[fat2.PTicker]uint64)
+	u0, x0 := first[fat2.PTickerUSD], first[fat2.PTickerXBT]
+	_ = d3.GetPegNetRateAverages(ctx, syncHeight)
+	vrt.Assert("C18.returned-averages-are-not-rewritten-by-later-calls", first[fat2.PTickerUSD] == u0 && first[fat2.PTickerXBT] == x0)
 	vrt.Cover("ran")
 	vrt.Assert("C18.no-data-race-between-api-and-sync", vrt.Races() == 0)
 }
